@@ -134,6 +134,9 @@ pub struct NodeStream {
     pub req_sent_at: HashMap<String, u64>,
     /// address -> time of the last in-time answer it gave to one of our requests
     pub answered: HashMap<SocketAddrV4, u64>,
+    /// address -> time of the last answer of any kind (possibly late: the socket's timeout adapts
+    /// between 0.5 s and several seconds, so a slow answer may or may not count for the node)
+    pub any_reply: HashMap<SocketAddrV4, u64>,
     /// addresses that sent us requests flagged read-only / not flagged
     pub ro_requesters: HashMap<SocketAddrV4, bool>,
     /// addresses whose replies carried ro=1
@@ -166,6 +169,7 @@ impl NodeStream {
             last_snapshot: None,
             req_sent_at: HashMap::new(),
             answered: HashMap::new(),
+            any_reply: HashMap::new(),
             ro_requesters: HashMap::new(),
             ro_responders: Default::default(),
             replies_since_snap: vec![],
@@ -333,7 +337,10 @@ impl NodeStream {
                                 if Some(*i.key()) != expect_key {
                                     bad.push(format!("get_mutable({}) yielded an item whose key is {}", expect_key.map(|k| hex(&k)).unwrap_or_default(), hex(i.key())));
                                 }
-                                if i.salt().map(|s| s.to_vec()) != expect_salt {
+                                // an empty salt and no salt name the same target (sha1(key ++ salt)): a call with
+                                // one may share the lookup of a call with the other
+                                let norm = |x: Option<Vec<u8>>| x.filter(|v| !v.is_empty());
+                                if norm(i.salt().map(|s| s.to_vec())) != norm(expect_salt.clone()) {
                                     bad.push("get_mutable yielded an item with another salt".into());
                                 }
                                 let mut signable = vec![];
@@ -597,7 +604,8 @@ impl NodeStream {
         }
         self.first_seen_in_table.retain(|a, _| in_table.contains(a));
         for (id, addr, _) in s.routing_table.iter() {
-            let last = self.answered.get(addr).copied().unwrap_or(0).max(self.first_seen_in_table.get(addr).copied().unwrap_or(now));
+            // slow answers may have counted for the node: any answer at all resets the clock here
+            let last = self.any_reply.get(addr).copied().unwrap_or(0).max(self.first_seen_in_table.get(addr).copied().unwrap_or(now));
             if now - last > 21 * 60 * SEC {
                 out.violation("C14", "silent-peer-kept", format!("{}@{addr} has not answered for {} min but is still in the routing table", hex(id.as_bytes()), (now - last) / (60 * SEC)));
             }
@@ -710,6 +718,7 @@ impl Stream for NodeStream {
         self.last_snapshot = None;
         self.req_sent_at.clear();
         self.answered.clear();
+        self.any_reply.clear();
         self.ro_requesters.clear();
         self.ro_responders.clear();
         self.replies_since_snap.clear();
@@ -844,6 +853,9 @@ impl Stream for NodeStream {
                                         if let Some(k) = kv(toks, "re") {
                                             let in_time = self.req_sent_at.get(k).map(|t| now - t < 450 * MS).unwrap_or(false);
                                             let right_addr = k.starts_with(&format!("{}/", addr_s(&from)));
+                                            if right_addr && !m.read_only() {
+                                                self.any_reply.insert(from, now);
+                                            }
                                             if in_time && right_addr {
                                                 if m.read_only() {
                                                     self.ro_responders.insert(from);
@@ -2252,6 +2264,159 @@ pub fn run(out: &mut Out, seed: u64, thorough: bool, replay: Option<&str>) {
             d.out.mark_distinct(fnv(format!("M{stored_seq}{}", salt.is_some()).as_bytes()));
             d.s.shutdown();
         }
+    }
+    // ---- R: everything at once, at random: address plan, id security, peer behaviour (silent, slow,
+    //         duplicating, forging, read-only, rejecting), loss, transaction id wrap, node mode, reachability,
+    //         time gaps, every API call with salts (also binary) on few targets.  The model and the
+    //         generic oracles (authenticity, no panic, every call returns, statistics, quiescence) judge.
+    for round in 0..(if thorough { 60 } else { 12 }) {
+        t0 += 10_000_000_000_000;
+        let n = *rng.pick(&[1usize, 2, 4, 9, 22, 45]);
+        let public = rng.chance(1, 2);
+        let mut net = VNet::new(&mut rng, n, !public);
+        let item_salts: [Option<&[u8]>; 4] = [None, Some(b"salt"), Some(b"\x80profile"), Some(b"")];
+        for (i, p) in net.peers.iter_mut().enumerate() {
+            if public && rng.chance(1, 2) {
+                let r = rng.below(256) as u8;
+                p.id = Id::from_bytes(crate::streams::closest::secure_id(&mut rng, *p.addr.ip(), r)).expect("id");
+            }
+            if i > 0 || rng.chance(1, 3) {
+                p.mode = *rng.pick(&[0u8, 0, 0, 0, 1, 2, 3]);
+                p.put_reply = *rng.pick(&[0i32, 0, 0, 0, 203, 205, 301, 302]);
+                p.forge = *rng.pick(&[0u8, 0, 0, 0, 0, 1, 2, 3, 5, 7, 8]);
+                p.extra_delay = *rng.pick(&[0u64, 0, 0, 20, 510, 700, 1300]) * MS;
+                p.put_delay = *rng.pick(&[0u64, 0, 100, 600]) * MS;
+                p.read_only = rng.chance(1, 12);
+                p.ro_puts = rng.chance(1, 12);
+                p.ignore_gets = rng.chance(1, 15);
+                p.ignore_puts = rng.chance(1, 15);
+            }
+            // some peers already hold items of the key the calls below use
+            if rng.chance(1, 3) {
+                let salt = *rng.pick(&item_salts);
+                let item = MutableItem::new(&key_from_seed(9), b"held", rng.below(4) as i64 + 1, salt);
+                p.muts.insert(*item.target(), (item.value().to_vec(), *item.key(), item.seq(), *item.signature()));
+            }
+        }
+        let boot: Vec<SocketAddrV4> = if rng.chance(1, 8) { vec![] } else { net.peers.iter().take(1 + rng.below(2) as usize).map(|p| p.addr).collect() };
+        let mut d = Driver::new(out, rng.next(), net);
+        d.drop_pct = *rng.pick(&[0u64, 0, 0, 10, 40]);
+        d.dup_pct = *rng.pick(&[0u64, 0, 15]);
+        d.late_pct = *rng.pick(&[0u64, 0, 15]);
+        d.reachable = rng.chance(1, 2);
+        if rng.chance(1, 3) {
+            d.tid0 = Some(u32::MAX - rng.below(30) as u32);
+        }
+        let mode = if rng.chance(1, 4) { "s" } else { "c" };
+        let (cfg_pub, real_ip) = if public {
+            let ip = Ipv4Addr::new(45, 9, rng.below(200) as u8, 1 + rng.below(200) as u8);
+            if rng.chance(1, 2) { (Some(ip), None) } else { (None, Some(ip)) }
+        } else {
+            (None, None)
+        };
+        d.begin_at(mode, &boot, cfg_pub, real_ip, rng.next() % 1_000_000 + 1, t0);
+        d.run_for(SEC, 10 * MS);
+        let targets: Vec<Id> = (0..2).map(|_| Id::from_bytes(rng.id20()).expect("id")).collect();
+        let v = format!("chaos {}", round % 3).into_bytes();
+        let vt = imm_target(&v);
+        let pk = hex(key_from_seed(9).verifying_key().as_bytes());
+        let sh = |s: Option<&[u8]>| s.map(hex).unwrap_or("none".into());
+        for _ in 0..(8 + rng.below(14)) {
+            let t = *rng.pick(&targets);
+            let salt = *rng.pick(&item_salts);
+            let call = match rng.below(14) {
+                0 => format!("find_node t={}", hex(t.as_bytes())),
+                1 => format!("closest t={}", hex(t.as_bytes())),
+                2 => format!("get_imm t={}", hex(vt.as_bytes())),
+                3 => format!("put_imm v={}", hex(&v)),
+                4 => format!("get_peers ih={}", hex(t.as_bytes())),
+                5 => format!("announce ih={} port={}", hex(t.as_bytes()), if rng.chance(1, 2) { "implied".to_string() } else { "7001".to_string() }),
+                6 | 7 => put_mut_call(9, rng.below(6) as i64, if rng.chance(1, 2) { b"m1" } else { b"m2" }, salt, if rng.chance(1, 3) { Some(rng.below(6) as i64) } else { None }),
+                8 | 9 => format!("get_mut k={pk} salt={} seq={}", sh(salt), if rng.chance(1, 3) { rng.below(5).to_string() } else { "none".into() }),
+                10 => sannounce_call(&t, 5),
+                11 => format!("get_speers ih={}", hex(t.as_bytes())),
+                12 => "info".to_string(),
+                _ => format!("find_node t={}", hex(vt.as_bytes())),
+            };
+            d.api(call);
+            match rng.below(6) {
+                0 => d.run_for(*rng.pick(&[61u64, 310, 905]) * SEC, SEC),
+                1 => { d.settle(20 * SEC, 10 * MS); }
+                _ => {
+                    for _ in 0..rng.below(15) {
+                        d.pump(5 * MS);
+                    }
+                }
+            }
+            if rng.chance(1, 6) {
+                // an unsolicited request from a stranger, sometimes from the node's own IP
+                let from = if rng.chance(1, 4) { SocketAddrV4::new(*d.s.addr.ip(), 7000) } else { SocketAddrV4::new(Ipv4Addr::new(10, 9, 0, 1 + rng.below(5) as u8), 6881) };
+                let rid = Id::from_bytes(rng.id20()).expect("id");
+                let rt = match rng.below(4) {
+                    0 => RequestTypeSpecific::Ping,
+                    1 => RequestTypeSpecific::FindNode(FindNodeRequestArguments { target: rid }),
+                    2 => RequestTypeSpecific::GetValue(GetValueRequestArguments { target: vt, seq: None, salt: None }),
+                    _ => RequestTypeSpecific::GetPeers(GetPeersRequestArguments { info_hash: t }),
+                };
+                d.inject_request(from, rid, rt, rng.chance(1, 3));
+            }
+            if rng.chance(1, 5) {
+                d.run("snap".into());
+            }
+        }
+        d.run("snap".into());
+        d.finish();
+        d.out.mark_distinct(d.rng.0 ^ 0x4a05 ^ round as u64);
+        d.out.count("chaos-round");
+        d.s.shutdown();
+    }
+    // ---- S: peers first met by a lookup that they answer WITH a value (C14): whoever answers one of the
+    //         node's requests is in its routing table afterwards (small network: no capacity or IP limit)
+    for kind in 0..4 {
+        t0 += 10_000_000_000_000;
+        let mut net = VNet::new(&mut rng, 6, true);
+        // the two late peers are listed by the others but silent during the bootstrap
+        net.peers[4].alive = false;
+        net.peers[5].alive = false;
+        let boot = vec![net.peers[0].addr];
+        let mut d = Driver::new(out, rng.next(), net);
+        d.begin("c", &boot, None, rng.next() % 1_000_000 + 1, t0);
+        d.run_for(3 * SEC, 10 * MS);
+        d.run("snap".into());
+        let ih = Id::from_bytes(rng.id20()).expect("id");
+        let v = b"held by the late peers".to_vec();
+        let item = MutableItem::new(&key_from_seed(9), b"late", 2, None);
+        let sa = SignedAnnounce::new(&key_from_seed(31), &ih);
+        for i in [4usize, 5] {
+            let p = &mut d.net.peers[i];
+            p.alive = true;
+            p.peers.insert(ih, vec![SocketAddrV4::new(Ipv4Addr::new(10, 8, 8, 8), 7000)]);
+            p.speers.insert(ih, vec![(*sa.key(), sa.timestamp(), *sa.signature())]);
+            p.imm.insert(imm_target(&v), v.clone());
+            p.muts.insert(*item.target(), (item.value().to_vec(), *item.key(), item.seq(), *item.signature()));
+        }
+        let call = match kind {
+            0 => format!("get_peers ih={}", hex(ih.as_bytes())),
+            1 => format!("get_speers ih={}", hex(ih.as_bytes())),
+            2 => format!("get_imm t={}", hex(imm_target(&v).as_bytes())),
+            _ => format!("get_mut k={} salt=none seq=none", hex(key_from_seed(9).verifying_key().as_bytes())),
+        };
+        d.api(call.clone());
+        d.settle(20 * SEC, 10 * MS);
+        d.run("snap".into());
+        if let Some(sn) = d.s.last_snapshot.clone() {
+            let now = verif::now_ns();
+            for i in [4usize, 5] {
+                let a = d.net.peers[i].addr;
+                let answered = d.s.answered.get(&a).map(|t| now - *t < 60 * SEC).unwrap_or(false);
+                if answered && !sn.routing_table.iter().any(|(_, x, _)| *x == a) {
+                    d.out.violation("C14", "answering-peer-not-in-table", format!("{a} answered `{}` with a value a moment ago and is not in the routing table ({} entries)", call.split(' ').next().unwrap_or(""), sn.routing_table.len()));
+                }
+            }
+        }
+        d.finish();
+        d.out.mark_distinct(fnv(format!("S{kind}").as_bytes()));
+        d.s.shutdown();
     }
     // ---- I: more than 1000 distinct lookup targets roll the lookup cache (C20)
     {
